@@ -295,6 +295,9 @@ func (env *SpecEnv) ident(name string) Value {
 			if c := env.fr.namedCell(name, env.st); c != nil {
 				return env.st.Cells[c]
 			}
+			if p, ok := env.fr.namedHeap[name]; ok {
+				return env.loadLoc(p.L)
+			}
 		}
 		if v, ok := env.fr.params[name]; ok {
 			return v
